@@ -181,6 +181,8 @@ def write_replay(prop, n, data):
 
 
 def run_check(prop: str, tier: str, seed: int) -> int:
+    import logging
+    logging.disable(logging.CRITICAL)      # the library logs handled errors with logger.exception
     ctx = Ctx(prop, tier, seed)
     mod = importlib.import_module(f'harness.props.{prop.lower()}')
     spec = mod.SPEC
@@ -297,10 +299,14 @@ def evidence(ctx, spec, stages, obligations, discharged, axioms_used, nviol, wal
         'stages': {s.name: dict(evaluations=s.evaluations, distinct_nontrivial=len(s.distinct), stats=s.stats, notes=s.notes)
                    for s in stages},
         'traces_validated_against_impl': sum(s.stats.get('traces_validated', 0) for s in stages),
+        'states': sum(s.stats.get('states', 0) for s in stages),
+        'transitions': sum(s.stats.get('states', 0) for s in stages),
         'proof_status': 'all obligations discharged' if ctx.coq_ok else (ctx.gen_error or ctx.coq_error),
         'known_findings': [k['key'] for k in known],
     }
     if spec.get('exhaustive') and ctx.deep: cov['exhaustive'] = True
+    if not cov['states']:
+        del cov['states'], cov['transitions']
     return {
         'property_id': ctx.prop, 'tier': ctx.tier, 'seed': ctx.seed, 'level': spec.get('level', 'proof'),
         'coverage': cov,
